@@ -123,6 +123,79 @@ def run_e2e(ctx, l, exe, lens, tag="kani"):
     return bad
 
 
+DRV_SV = os.path.join(vlib.ROOT, "tools", "harness", "drv_chain_sv.c")
+WRAP = ["-Wl,--wrap=theta_chain_comput_strategy", "-Wl,--wrap=theta_chain_comput_strategy_faster_no_eval"]
+
+
+def sv_stage(ctx, l, v2s, nmsg):
+    """chains arising inside honest sign/verify (dim-2 variant) with the response's 2-valuation steered by the H1 hook:
+    the short rows (n = response_length - two_resp_length) on real kernels. Every intercepted call is replayed with the
+    other routine / a random strategy / balanced / the eight_above=0 form, and its hook trace is given to the model."""
+    try:
+        exe = ctx.cc_harness(DRV_SV, os.path.join(ctx.tmp, "drv_chain_sv%d" % l), l, extra=WRAP)
+    except vlib.BuildError as e:
+        ctx.obligation("sign/verify interception driver L%d builds" % l, False, str(e)[:300])
+        return
+    rng = ctx.rng.fork("sv%d" % l)
+    ops = ["sv %d %x %d" % (v2, rng.bits(48), nmsg) for v2 in v2s]
+    rc, outs, err = run_c([exe], ops, timeout=200 if ctx.quick else 1700)
+    bad = 0
+    seen = ctx.coverage.setdefault("sign_verify_chains", {}).setdefault("L%d" % l, {})
+    model_ops, model_exp, model_key = [], [], []
+    for i, op in enumerate(ops):
+        if i >= len(outs):
+            ctx.violation("sv:L%d:crash:%s" % (l, op.split()[1]), "keygen/sign/verify crashed or hung with the chain interception",
+                          dict(level=l, op=op, rc=rc, stderr=err[-1200:]))
+            bad += 1
+            break
+        parts = outs[i].split(" | ")
+        head = dict(kv.split("=") for kv in parts[0].split()[1:])
+        if head.get("sign") == "1" and head.get("verif") != "1":
+            if ctx.violation("sv:L%d:honest-signature-rejected:v2=%s" % (l, head.get("v2")), "an honest signature does not verify",
+                             dict(level=l, op=op, head=head)):
+                bad += 1
+        for rec in parts[1:]:
+            fields = [f.strip() for f in rec.split(" ; ")]
+            c = fields[0].split()
+            which, n, ea, L = (int(x, 16) for x in c[1:5])
+            strat = c[5:]
+            key = "n=%d ea=%d %s" % (n, ea, "strategy" if which == 0 else "faster_no_eval")
+            seen[key] = seen.get(key, 0) + 1
+            ctx.case("sv:L%d:%s" % (l, key))
+            js, tr, split = {}, None, None
+            for f in fields[1:]:
+                t = f.split()
+                if t[0] == "T":
+                    tr = " ".join(t[1:])
+                elif t[0] == "S":
+                    split = t[1]
+                elif t[0] == "J":
+                    js[t[1]] = frozenset(t[2:4])
+            fails = []
+            if split != "1":
+                fails.append("real: chain reports a non-split codomain on an honest kernel")
+            for name, v in js.items():
+                if v != js.get("real"):
+                    fails.append("%s: codomain j-invariants differ from the routine the protocol called" % name)
+            if fails:
+                if ctx.violation("sv:L%d:%s:%s" % (l, key.replace(" ", ":"), fails[0].split(":")[0]), "(2,2)-chain inside sign/verify: " + "; ".join(fails),
+                                 dict(level=l, op=op, chain=dict(which=which, n=n, eight_above=ea, strategy=strat), failed=fails)):
+                    bad += 1
+            if tr is not None and tr != "":
+                model_ops.append("theta.trace.row %x %x %x %s 0 0" % (n, ea, which, " ".join(strat)))
+                model_exp.append(tr)
+                model_key.append((op, key))
+    if model_ops:
+        mout = ctx.driver(model_ops)
+        dis = [(k, e, m) for k, e, m in zip(model_key, model_exp, mout) if e != m]
+        ctx.obligation("correspondence theta traces inside sign/verify L%d (%d chains)" % (l, len(model_ops)), not dis,
+                       str(dis[:2])[:500] if dis else "")
+        for (op, key), e, m in dis[:2]:
+            ctx.violation("sv-trace:L%d:%s" % (l, key.replace(" ", ":")), "traversal trace of a chain inside sign/verify differs from the model",
+                          dict(level=l, op=op, chain=key, impl=e[:300], model=m[:300]), found=False)
+    ctx.obligation("sign/verify chains L%d (%d runs)" % (l, len(ops)), bad == 0, "%d failing" % bad)
+
+
 def search(ctx):
     ctx.lake(["driver"])
     try:
@@ -213,6 +286,10 @@ def run(ctx):
         else:
             lens = list(range(lo, f - 1, 1 if l == 1 else 4))
         run_e2e(ctx, l, exe, lens)
+        if ctx.quick:
+            sv_stage(ctx, l, [-1, 2, 5, 8] if l == 1 else [3], 6)
+        else:
+            sv_stage(ctx, l, list(range(-1, 14)), 40)
         ctx.sample(dict(level=l, rows=rs[:10], e2e_lengths=lens[:10]))
     return dict(level="proof",
                 rule="one case = one (level, table row | random strategy, mode, routine) trace or one Kani kernel (level, length, u) "
